@@ -46,6 +46,12 @@ CLAIMS = {
          "parameter-free definitions also against a #[derive(Debug)] twin.",
          COMMON_NOTE + "core::fmt's DebugStruct/DebugTuple/DebugMap/PadAdapter are modelled (Sem/FmtBuilders.lean) and validated by the same runs, not proved; derive-equivalence is proved for enums and observed for structs.",
          "Lean 4 theorem on builder calls + differential correspondence on output strings"),
+ "C09": ("Theorems deref_correct (accepted => for every value `&*x`/`&mut *x` designates the sole field or the marked one; includes the "
+         "wildcard-counted tuple pattern lemma matchTuple_replicate), pick_eq_designated / struct_refused_iff / variant_refused_iff (refused "
+         "exactly when the designation is missing, duplicated or the variant is a unit), write_through_only_designated. Tie: real macro + rustc, "
+         "pointer identity of `&*x` / `&mut *x` against every field's storage (or referent), fields changed after a write.",
+         COMMON_NOTE + "the model returns the designated field index; that a reference-typed field yields its referent is Rust's deref coercion (observed, not modelled); Target type agreement across variants is rustc's check.",
+         "Lean 4 theorem + differential correspondence by pointer identity"),
 }
 
 ENGINES = [
